@@ -179,7 +179,7 @@ class Sem:
 
     def affine(self, t, elem, item):
         """(a, b) with t = a*i + b, for index expressions over the loop counter"""
-        t = strip(t)
+        t = util.strip_int_conversions(t)       # `i as usize`, `usize::from(i)`, `usize::try_from(i).unwrap()`
         if t[0] == "int":
             return (0, t[1])
         if t[0] == "cast":
@@ -208,6 +208,8 @@ class Sem:
         None when the iterator chain is not understood."""
         if lp["init_call"] is None:
             return None
+        if not lp.get("only_exit", True):
+            return None         # a loop that can be left early does not make all its statements
         r = self.item_at(lp["init_call"][2][0])
         if r is None:
             return None
@@ -222,8 +224,15 @@ class Sem:
             if lp["next_bb"] in lpb:
                 blocks |= lpb
         out = []
+        idom = cfg.dominators(body)
+        my_back = [e for e in be if e[1] == lp["next_bb"]]
         for (bi, si), (loc, v) in sorted(self.se.assigns.items()):
             if bi not in blocks:
+                continue
+            if loc[0] != "local" and not all(cfg.dominates(idom, bi, t_) for t_, h_ in my_back):
+                # a store that some iterations skip (`if c { continue }` in front of it, a store under
+                # a condition): the loop does not make this statement at every position
+                out.append((None, None, strip(v)))
                 continue
             dest = None
             if loc[0] in ("index", "cindex") and not any(x == elem or x == selem for x in walk(loc[1])):
